@@ -390,7 +390,7 @@ static void havoc_state(void) {
   in_nb = nondet_uint(); XV_ASSUME(in_nb <= XV_NB);
   for (unsigned b = 0; b < XV_NB; b++) {
     in_bsize[b] = nondet_uint(); XV_ASSUME(in_bsize[b] >= 1 && in_bsize[b] <= XV_BS);
-    DBLK(b)->h.size = in_bsize[b]; DBLK(b)->h.next = (b + 1 < in_nb) ? &DBLK(b + 1)->h : (struct hpblock*)0;
+    DBLK(b)->h.size = in_bsize[b]; DBLK(b)->h.next = (b + 1 < in_nb && b + 1 < XV_NB) ? &DBLK(b + 1)->h : (struct hpblock*)0;
     for (unsigned i = 0; i < XV_BS; i++) { in_bslot[b][i] = nondet_uptr(); DBLK(b)->s[i].value = in_bslot[b][i]; DBLK(b)->s[i].guard_cnt = nondet_u64(); }
   }
   if (in_nb) { epool(0).hp_block = &db0.h; }
